@@ -317,6 +317,9 @@ def explore(task):
                         if hasattr(r, "attrs") and hasattr(r, "name") and F0:
                             report(_viol(task, "raw-object-leaked", f"{prim} on restricted wrapper of {w.name} (via {chain}) handed out the unwrapped {type(r).__name__} {r.name}", chain + [prim]))
                         continue
+                    if not prim.startswith("restrict") and not flags_of(w) <= flags_of(r):
+                        report(_viol(task, "flags-dropped", f"{prim} from wrapper of {w.name} with flags {sorted(flags_of(w))} (via {chain}) yields {r.name} with flags {sorted(flags_of(r))}", chain + [prim]))
+                        continue
                     k = state_key(r)
                     if k not in seen:
                         seen[k] = True
